@@ -614,6 +614,12 @@ def construct(env, factory, seq):
 
 
 @ghost()
+def elems(env, x):
+    """the element sequence of an iterable datum (identity symbolically; natively the recorded element list)"""
+    return x
+
+
+@ghost()
 def built_from(env, x):
     return V("sym", t=T.F_mkseq(env.to_val(x)))
 
